@@ -437,7 +437,9 @@ def run(repo: Repo, rep: Report, tier: str) -> None:
     check_emit_regeneration(repo, rep)
 
     # registry key at the call sites in the generator
-    gen = repo.func("generator.client_generator:ClientGenerator.generate")
+    from rules.c10 import generation_function as _genfn
+
+    gen = _genfn(repo)
     from sa.match import Locals as _Locals2
 
     GL = _Locals2(gen.node)
@@ -600,7 +602,9 @@ def rule_cleanup_keeps_registry(repo: Repo, rep, rule: str = "R11.5") -> None:
     """`generate()` removes the whole output package before a forced regeneration.  A core embedded in that package can be the shared
     core of other clients (see R11.2), and their status codes are recorded only in its registry file: on every way from the
     `rmtree` to the exception emitter the registry must have been read before and be written back after the removal."""
-    gen = repo.func("generator.client_generator:ClientGenerator.generate")
+    from rules.c10 import generation_function as _genfn
+
+    gen = _genfn(repo)
     from sa.cfg import CFG
     from sa.flatten import flatten as _fl115, inline_module_constants as _imc115
     from sa.match import Locals as _L
